@@ -214,7 +214,7 @@ def gen_spviface(tools):
     builtinToSPIRV, addressSpaceToStorageClass, stage -> execution model, interpolation ->
     decoration, plus the numeric constants they name and the lowerer's WGSL builtin-name table."""
     import re
-    consts, bsw, bsrc, ssw, epsrc, isrc, wb = extract(tools, [
+    consts, bsw, bsrc, ssw, epsrc, isrc, wb, rsrc, rfsrc = extract(tools, [
         {"kind": "consts", "file": "spirv/internal/codegen/spirv.go"},
         {"kind": "switchmap", "file": SPV_BACKEND, "name": "builtinToSPIRV"},
         {"kind": "funcsrc", "file": SPV_BACKEND, "name": "builtinToSPIRV"},
@@ -222,6 +222,8 @@ def gen_spviface(tools):
         {"kind": "funcsrc", "file": SPV_BACKEND, "name": "emitEntryPoints", "recv": "Backend"},
         {"kind": "funcsrc", "file": SPV_BACKEND, "name": "addInterpolationDecorations", "recv": "Backend"},
         {"kind": "map", "file": "wgsl/internal/lower/lower.go", "name": "builtinTable"},
+        {"kind": "funcsrc", "file": SPV_BACKEND, "name": "collectGlobalVarsFromStatements", "recv": "Backend"},
+        {"kind": "funcsrc", "file": SPV_BACKEND, "name": "collectGlobalVarsFromFunction", "recv": "Backend"},
     ])
     cmap = {}
     for n, v, t in consts:
@@ -301,6 +303,17 @@ def gen_spviface(tools):
     out.append("(* wgsl/internal/lower/lower.go builtinTable: WGSL builtin name -> ir.BuiltinValue constant *)")
     out.append("Definition wgsl_builtin_table : list (string * string) := [\n" +
                ";\n".join("  (%s, %s)" % (coq_string(k), coq_string(irname(v, "builtinTable"))) for k, v in wb) + "].")
+    # the statement kinds the used-globals traversal descends into, and the blocks of each it walks
+    rows = []
+    for name, body in re.findall(r"case ir\.(Stmt\w+):(.*?)(?=case ir\.Stmt|\Z)", rsrc, re.S):
+        rows.append((name, re.findall(r"collectGlobalVarsFromStatements\((?:\w+\.)?(\w+),", body)))
+    if not rows:
+        raise GenError("collectGlobalVarsFromStatements: no statement cases found")
+    out.append("\n(* collectGlobalVarsFromStatements: statement kind -> nested blocks walked (StmtCall: the call itself) *)")
+    out.append("Definition reach_cases : list (string * list string) := [\n" +
+               ";\n".join("  (%s, [%s])" % (coq_string(n), "; ".join(coq_string(x) for x in v)) for n, v in rows) + "].")
+    out.append("Definition reach_scans_expressions : bool := %s." %
+               ("true" if re.search(r"range fn\.Expressions", rfsrc) and "ir.ExprGlobalVariable" in rfsrc else "false"))
     return [write("Gen/SpvIfaceEnums.v", "\n".join(out) + "\n")]
 
 # ------------------------------------------------------------------ DXIL container / bitstream (C18)
@@ -665,6 +678,23 @@ def gen_c09preemit(tools):
 
 
 GENERATORS["c09preemit"] = gen_c09preemit   # C09
+
+import spvcheck  # C01/C15: Gen/SpvOpTable.v (probed SPIR-V instruction templates)
+GENERATORS["spvoptable"] = lambda tools: spvcheck.gen_spvoptable(sys.modules[__name__], tools)
+
+
+# C05: Gen/GlslOpTable.v (probe: one micro-program per operator x kind x shape, compiled to GLSL and read back)
+def gen_glsloptable(tools):
+    import glslprobe
+    rows, problems = glslprobe.run_probes(tools)
+    if problems:
+        raise GenError("glsl probe: %d probes could not be compiled/read, first: %s" % (len(problems), problems[0],))
+    body, n = glslprobe.write_table(rows)
+    gen_glsloptable.last = {"rows": len(rows), "distinct": n}
+    return [write("Gen/GlslOpTable.v", body)]
+
+
+GENERATORS["glsloptable"] = gen_glsloptable
 
 
 def regenerate(tools, names):
